@@ -95,3 +95,12 @@ PROPS["C06"] = dict(
     e2=["c06", "c05"],
 )
 PROPS["C05"]["e2"] = ["c05", "c20", "c06"]
+
+PROPS["C19"] = dict(
+    bounds="collateral inputs' total and return output: lovelace all u64, one arbitrary asset all u64, other assets abstract; requested total, fee, percentage: all u64; "
+           "previously stored fields arbitrary (two-step histories); 2 collateral inputs for the percentage helper",
+    assumptions=["Value::checked_sub / MultiAsset::sub enter through the pointwise summaries of valuemodel.py (clamping behaviour as implemented), established separately on small bundles by C14's E1 harnesses",
+                 "min_ada_for_output and TxInputsBuilder::total_value return arbitrary results; the balancing call inside the percentage helper is an arbitrary Ok/Err"],
+    e1=[],
+    e2=["c19"],
+)
